@@ -841,7 +841,50 @@ def r10_17(chk):
     chk.floor("R10.17", 30, "serialiser methods of the package")
 
 
+def r10_18(chk):
+    chk.rule("R10.18", "when a reader re-orders a rebuilt matrix to the stored order of names -- `A[index][:, index]` relabelled with L -- index[k] is the CURRENT position of the name L[k]: the index is built by iterating the labels the result will carry (L) and looking each up in the rebuilt object's own names (`current.index(n)` or a {name: position} table enumerated from the current names); iterating the current names and looking up in L gives the inverse permutation, which agrees for identities and swaps and attaches values to the wrong pairs for any 3-cycle")
+    m = chk.repo.module("util/deserialise.py")
+    q = "deserialise_tabular"
+    fn = m.func(q)
+    n = 0
+    assigns = {}
+    for st in walk_no_nested(fn):
+        if isinstance(st, ast.Assign) and len(st.targets) == 1 and isinstance(st.targets[0], ast.Name):
+            assigns.setdefault(st.targets[0].id, []).append(st.value)
+    for c in walk_no_nested(fn):
+        if not (isinstance(c, ast.Call) and isinstance(c.func, ast.Attribute) and c.func.attr == "from_array_names" and len(c.args) >= 2):
+            continue
+        arr, labels = c.args[0], norm(c.args[1])
+        idx_names = {x.id for x in ast.walk(arr) if isinstance(x, ast.Name) and x.id in assigns and isinstance(assigns[x.id][-1], ast.ListComp)}
+        if not idx_names:
+            continue
+        n += 1
+        iname = sorted(idx_names)[0]
+        comp = assigns[iname][-1]
+        k = key(m, q, f"{iname}[k] = current position of the k-th stored name")
+        it = norm(comp.generators[0].iter)
+        var = norm(comp.generators[0].target)
+        elt = comp.elt
+        cur = None  # what the positions are looked up in
+        if isinstance(elt, ast.Call) and isinstance(elt.func, ast.Attribute) and elt.func.attr == "index" and elt.args and norm(elt.args[0]) == var:
+            cur = norm(elt.func.value)
+        elif isinstance(elt, ast.Subscript) and norm(elt.slice) == var and isinstance(elt.value, ast.Name) and elt.value.id in assigns:
+            tbl = assigns[elt.value.id][-1]
+            if isinstance(tbl, ast.DictComp) and isinstance(tbl.generators[0].iter, ast.Call) and call_name(tbl.generators[0].iter) == "enumerate":
+                tgt = tbl.generators[0].target
+                # {name: position}: key is the second element of the enumerate pair
+                if isinstance(tgt, ast.Tuple) and norm(tbl.key) == norm(tgt.elts[1]) and norm(tbl.value) == norm(tgt.elts[0]):
+                    cur = norm(tbl.generators[0].iter.args[0])
+        if cur is None:
+            chk.unresolved("R10.18", k, m.loc(comp), f"index built by `{norm(comp)[:70]}`: lookup idiom not recognised")
+            continue
+        ok = it == labels and cur != labels and cur not in (f"list({labels})", f"tuple({labels})")
+        chk.decide(ok, "R10.18", k, m.loc(comp), f"for {var} in {it}: position in {cur}", f"the index iterates `{it}` and looks positions up in `{cur}`, but the re-ordered matrix is labelled with `{labels}`: that is the inverse of the permutation wanted -- a stored order such as ['c', 'a', 'b'] comes back with the right names and the distances of other pairs")
+    chk.floor("R10.18", 1, "DistanceMatrix branch of deserialise_tabular")
+
+
 def run(chk):
+    r10_18(chk)
     r10_17(chk)
     r10_16(chk)
     r10_15(chk)
